@@ -12,19 +12,6 @@ Module RangeInv (V : OrderedTypeFull').
   Proof. destruct im; reflexivity. Qed.
   Lemma inv_hi_lb x iM s : lb (mkRangeRaw (A:=V.t) (Some x) None (negb iM) false s) = C x (if iM then Aft else Bef).
   Proof. destruct iM; reflexivity. Qed.
-  Lemma neginf_lt x sd : CO.lt (NegInf : cut) (C x sd).
-  Proof. apply CO.lt_iff. reflexivity. Qed.
-  Lemma lt_posinf x sd : CO.lt (C x sd) (PosInf : cut).
-  Proof. apply CO.lt_iff. reflexivity. Qed.
-  Lemma neginf_le c : CO.le (NegInf : cut) c.
-  Proof. apply CO.le_iff. destruct c; cbn; congruence. Qed.
-  Lemma le_posinf c : CO.le c (PosInf : cut).
-  Proof. apply CO.le_iff. destruct c; cbn; congruence. Qed.
-  Lemma not_lt_neginf c : ~ CO.lt c (NegInf : cut).
-  Proof. rewrite CO.lt_iff. destruct c; cbn; congruence. Qed.
-  Lemma not_posinf_lt c : ~ CO.lt (PosInf : cut) c.
-  Proof. rewrite CO.lt_iff. destruct c; cbn; congruence. Qed.
-
   Lemma lb_raw m M im iM s :
     lb (mkRangeRaw (A:=V.t) m M im iM s) = match m with None => NegInf | Some v => C v (if im then Bef else Aft) end.
   Proof. reflexivity. Qed.
